@@ -19,6 +19,7 @@ var verifGateFn atomic.Pointer[func(point string, m *FloodSub, objs ...any)]
 //	"floodsub.seen"      (prevHopPeer peer.ID, pkt *peer.SignedMsg)  handleValidMessage, message id newly marked as seen
 //	"floodsub.deliver"   (sub pubsub.Subscription, msg pubsub.Message) delivery goroutine, before it locks the subscription
 //	"floodsub.delivered" (sub pubsub.Subscription, msg pubsub.Message) delivery goroutine, after it called the handlers and unlocked
+//	"floodsub.published" (pkt *peer.SignedMsg) execPublish, after the message was queued to every next-hop session (m.mtx released)
 //	"floodsub.execTop"   ()  Execute, top of the loop, before the new-session region
 //	"floodsub.holdBreak" ()  Execute, between the new-session region and the channel sweep region
 //	"floodsub.execSent"  ()  Execute, after the subscription changes were queued to the peers
@@ -89,4 +90,17 @@ func (m *FloodSub) VerifSnapshot() *VerifState {
 func (m *FloodSub) VerifSeen(msgID string) bool {
 	_, ok := m.seenMessages.Get(msgID)
 	return ok
+}
+
+// VerifSendQueue reports the number of packets waiting in the send queue (packetCh) of the
+// session currently registered for tpl and the capacity of that queue. ok is false when no
+// session is registered for tpl.
+func (m *FloodSub) VerifSendQueue(tpl pubsub.PeerLinkTuple) (n, capacity int, ok bool) {
+	m.mtx.Lock()
+	defer m.mtx.Unlock()
+	s, ok := m.peers[tpl]
+	if !ok {
+		return 0, 0, false
+	}
+	return len(s.packetCh), cap(s.packetCh), true
 }
